@@ -7,6 +7,7 @@ from numbers_parser._csv2numbers import Converter
 
 from pysym.api import BoolDom, Cases, Harness, IntDom, StrDom, assume, cover
 from pysym.models import m_float_precise
+from sigfig import round as REAL_SIGFIG
 
 
 def converter(header, data, no_header=False, whitespace=False, reverse=False):
@@ -88,6 +89,43 @@ def h20e_number_value(x, neg):
     assert v == x
     cell = Cell._from_value(0, 0, v)
     assert _unpack_decimal128(_pack_decimal128(cell.value)) == x
+
+
+def m_export_sigfig(eng, x, *args, **kw):
+    """sigfig.round as the export calls it: a float of at most 15 significant digits rounded to 15 significant digits is
+    itself. Any other use (other keywords, longer floats) is outside the model: the path is undecided and its inputs are
+    replayed natively against the real sigfig"""
+    from pysym.values import SymFloat, Unsupported, is_sym
+    if not is_sym(x):
+        return REAL_SIGFIG(x, *args, **kw)
+    if args or set(kw) - {"sigfigs", "warn"} or kw.get("sigfigs") != 15:
+        raise Unsupported("sigfig.round called in a way the export contract does not cover")
+    if isinstance(x, SymFloat) and x.dec is not None and len(x.dec[1]) <= 15 and x.noise is None:
+        return x
+    raise Unsupported("sigfig.round of a float that is not given by <= 15 decimal digits")
+
+
+def h20f_export(x, neg):
+    """cat-numbers writes a number cell as text that reads back as the same number (the export half of the round trip,
+    through the real _cat_numbers.cell_as_string)"""
+    from numbers_parser._cat_numbers import cell_as_string
+    from numbers_parser.cell import NumberCell
+    del REPRS[:]
+    if neg:
+        x = -x
+    cell = NumberCell.__new__(NumberCell)
+    cell._value = x
+    cell._formula_id = None
+    out = cell_as_string(Args(), cell)
+    text = str(out)                       # what csv.writer puts into the file
+    REPRS.append((text, out))
+    assert float(text) == x
+
+
+class Args:
+    formulas = False
+    formatting = False
+    brief = True
 
 
 def h20b_columns(h1, h2, h3, ncols):
@@ -175,7 +213,24 @@ def _num(n, e):
                    models={float: float_of_repr})
 
 
-HARNESSES = [_cell(n) for n in (0, 1, 2, 3, 4)] + [_num(n, e) for n, e in NUM_T] + [
+EXP_Q = [(1, 0), (3, 2), (15, 14), (1, -20), (2, -16), (4, -5), (1, 300)]
+EXP_T = EXP_Q + [(n, e) for n in (1, 7, 15) for e in (-300, -100, -30, -17, -15, -7, -1, 5, 15, 16, 22, 100)]
+
+
+def _exp(n, e):
+    from pysym.api import DecFloatDom
+    import numbers_parser._cat_numbers as catmod
+    return Harness(f"H20f-n{n}-e{e}", h20f_export, dict(x=DecFloatDom(n, e), neg=BoolDom()),
+                   bounds=f"every float whose shortest decimal form has {n} significant digits (symbolic) at decimal exponent {e}, "
+                          "both signs, exported by the real cell_as_string",
+                   stubs=["sigfig.round(float, sigfigs=15) = the float itself for floats of <= 15 significant digits (any other call "
+                          "shape: undecided, inputs replayed natively with the real sigfig); csv.writer writes str(value)",
+                          "float(text) = x for the text repr(x)"],
+                   outside=["csv.writer quoting", "--formatting / --formulas output", "the Document the cell is read from"],
+                   models={float: float_of_repr, REAL_SIGFIG: m_export_sigfig})
+
+
+HARNESSES = [_cell(n) for n in (0, 1, 2, 3, 4)] + [_num(n, e) for n, e in NUM_T] + [_exp(n, e) for n, e in EXP_T] + [
     Harness("H20b", h20b_columns, dict(h1=StrDom(1), h2=StrDom(1), h3=StrDom(1), ncols=Cases([1, 2, 3])),
             bounds="1..3 columns whose header names are symbolic one-character strings (equal or not), two data rows",
             stubs=STUBS[1:], outside=OUT),
@@ -185,7 +240,8 @@ HARNESSES = [_cell(n) for n in (0, 1, 2, 3, 4)] + [_num(n, e) for n, e in NUM_T]
     Harness("H20c", h20c_rows, dict(reverse=BoolDom(), no_header=BoolDom()),
             bounds="3 rows x 2 columns, --reverse on/off, header / --no-header", stubs=STUBS[1:], outside=OUT),
 ]
-TIER_HARNESSES = {"quick": ["H20a-n0", "H20a-n1", "H20a-n2", "H20a-n3", "H20b", "H20c", "H20d"] + [f"H20e-n{n}-e{e}" for n, e in NUM_Q],
+TIER_HARNESSES = {"quick": ["H20a-n0", "H20a-n1", "H20a-n2", "H20a-n3", "H20b", "H20c", "H20d"] + [f"H20e-n{n}-e{e}" for n, e in NUM_Q] +
+                           [f"H20f-n{n}-e{e}" for n, e in EXP_Q],
                   "thorough": ["H20a-n0", "H20a-n1", "H20a-n2", "H20a-n3", "H20a-n4", "H20b", "H20c", "H20d"] +
-                              [f"H20e-n{n}-e{e}" for n, e in NUM_T]}
+                              [f"H20e-n{n}-e{e}" for n, e in NUM_T] + [f"H20f-n{n}-e{e}" for n, e in EXP_T]}
 PROPERTY = "C20"
